@@ -259,6 +259,8 @@ func init() {
 			ok := Eq(termOf(rwW(mu)), BV(0, 32))
 			rc := rwReaders(mu)
 			cc.e.foot.write(mu.Obj, cc.c.g)
+			// ghost: failed Try operations count towards the spin bound assumption
+			cc.e.tryFailCount = Ite(And(cc.c.g, Not(ok)), Add(cc.e.tryFailCount, BV(1, 8)), cc.e.tryFailCount)
 			storeCell(rc, Add(termOf(rc), BV(1, 32)), And(cc.c.g, ok))
 			if cc.c.held == nil {
 				cc.c.held = map[*Cell]*Term{}
